@@ -29,6 +29,7 @@ DENOMS_QUICK = [1, 2, 4, 65536, 1 << 30]
 DENOMS_THOROUGH = DENOMS_QUICK + [8, 16, 256, 32768, 1 << 20, 1 << 29]
 CONST_OPERANDS_QUICK = ['F:1', 'F:-1', 'F:2', 'F:3', 'F:-4', 'F:6', 'F:-2147483648', 'F:2147483648', 'F:-2147483649', 'F:-4294967295', 'F:4294967297', 'B:2', 'B:-3', 'R:2/1', 'R:1/2', 'R:-3/4', 'R:3/65536']
 CONST_OPERANDS = CONST_OPERANDS_QUICK + ['F:2147483647', 'F:10', 'F:-7', 'B:-2147483648', 'R:-2147483648/1', 'R:2147483647/2', 'R:-1/1073741824']      # R:5/3 was tried: solver unknown (odd denominator against symbolic rationals)
+DIVISORS_REP = [2, -1, 3, -(1 << 31), 1, 7, -4, (1 << 31) - 1]
 DIVISORS = [1, -1, 2, -2, 3, -3, 7, -4, 10, 1 << 31, -(1 << 31), (1 << 31) - 1, (1 << 62) + 1, -(1 << 63)]
 
 
@@ -154,8 +155,10 @@ def make_binop_harness(prog, op, ra, rb, denoms, window=None, bvals=None):
     return harness
 
 
-def make_div_harness(prog, op, ra, divisor):
-    """quotient / rem / modulo with a concrete divisor (carried as a fixnum, or a bignum if it does not fit)"""
+def make_div_harness(prog, op, ra, divisor, rep='auto'):
+    """quotient / rem / modulo with a concrete divisor.  rep: 'auto' = carried as a fixnum, or a bignum if it does not fit;
+    'B' = carried as a bignum although it fits a fixnum (arithmetic that left the fixnum range and came back);
+    'R' = carried as an integer-valued rational n/1 (what `/` and truncate return)"""
     if op == 'quotient': FN = prog.resolve_crate('Number::quotient')
     elif op == 'rem': FN = prog.resolve_crate('<&Number as Rem>::rem')
     else: FN = prog.resolve_crate('Number::modulo')
@@ -163,7 +166,8 @@ def make_div_harness(prog, op, ra, divisor):
     def harness(it):
         a, da = N.sym_number(it, ra, 'a', [1])
         if ra == 'Rational': pass           # integer-valued rational (denominator 1)
-        if -(1 << 63) <= divisor < (1 << 63): b = Agg('Number', 0, [divisor]); rb = 'F:%d' % divisor
+        if rep == 'R': rb = 'R:%d/1' % divisor; b = concrete_number(rb)[0]
+        elif rep == 'auto' and -(1 << 63) <= divisor < (1 << 63): b = Agg('Number', 0, [divisor]); rb = 'F:%d' % divisor
         else: b = Agg('Number', 2, [Ref(Cell(Big(divisor)))]); rb = 'B:%d' % divisor
         it.ghost['desc'] = (op, da, ('fix', divisor))
         r = it.call(FN, [Ref(Cell(a)), Ref(Cell(b))])
@@ -382,6 +386,10 @@ def run(chk, ws, prog, tier, replays):
         for ra in ('Fixnum', 'BigInt', 'Rational'):
             for dv in (DIVISORS if tier != 'quick' else DIVISORS[:8] + DIVISORS[-2:]):
                 jobs.append(('%s/%s/by %d' % (op, ra, dv), make_div_harness(prog, op, ra, dv)))
+            # the same integers in the other representations of the divisor: a small value carried as a bignum, an integer-valued rational
+            for dv in (DIVISORS_REP if tier != 'quick' else DIVISORS_REP[:4]):
+                jobs.append(('%s/%s/by bignum %d' % (op, ra, dv), make_div_harness(prog, op, ra, dv, 'B')))
+                jobs.append(('%s/%s/by rational %d/1' % (op, ra, dv), make_div_harness(prog, op, ra, dv, 'R')))
     for op in ('abs', 'floor', 'ceil', 'truncate', 'numerator', 'denominator'):
         for ra in exact:
             jobs.append(('%s/%s' % (op, ra), make_unary_harness(prog, op, ra, denoms)))
